@@ -81,12 +81,13 @@
 (*                   the code re-checks the replacement channel only for results whose error   *)
 (*                   is context.Canceled.  This is observation O6 of Promise.tla, which the     *)
 (*                   design already tolerates at model level (it needs the awaiter's goroutine *)
-(*                   not to run between replacement and resolution).  All 21 alarms reproduced  *)
+(*                   not to run between replacement and resolution).  All 19 alarms reproduced  *)
 (*                   with the refinements on (seeds 1-3, 360 000 seeded executions:            *)
 (*                   WrongResult:container:await|errch|cancelch) are this race, all in fine    *)
-(*                   executions; none came from a combined step.  `late` is therefore applied   *)
-(*                   in coarse executions only.  (Read strictly, the race does return the       *)
-(*                   result of a promise that was never current while resolved; a re-check     *)
+(*                   executions; the coarse ones, combined steps included, raised none.  `late` *)
+(*                   is therefore applied in coarse executions only.  (Read strictly, the race  *)
+(*                   does return the result of a promise that was never current while          *)
+(*                   resolved; a re-check of the replacement channel                           *)
 (*                   after every inner await closes it: proposed-fix-3.diff, constant FixO6 of  *)
 (*                   Promise.tla, under which `late` holds in every interleaving.)              *)
 (*   AwaitStuck      B5 + B1/B2/B4 ("certainly available", "certainly cancelled / fired").     *)
